@@ -58,7 +58,10 @@ Inductive effs (n : N) : xstate -> xstate -> Prop :=
 | effs_step : forall x x' x'', effs n x x' -> eff n x' x'' -> effs n x x''.
 
 Lemma effs_trans : forall n a b c, effs n a b -> effs n b c -> effs n a c.
-Proof. intros n a b c H1 H2; induction H2; auto. eapply effs_step; eauto. Qed.
+Proof.
+  intros n a b c H1 H2; induction H2; [assumption|].
+  eapply effs_step; [apply IHeffs; assumption|eassumption].
+Qed.
 
 Lemma effs_one : forall n a b, eff n a b -> effs n a b.
 Proof. intros; eapply effs_step; [apply effs_refl|auto]. Qed.
@@ -78,7 +81,6 @@ Record Inv (n : N) (x : xstate) : Prop := mkInv {
 Lemma Inv_init : forall n, Inv n x_init.
 Proof.
   intro n; constructor; cbn; intros; try contradiction; try discriminate.
-  exfalso; apply H; reflexivity.
 Qed.
 
 (* --- sets *)
@@ -90,9 +92,11 @@ Qed.
 
 Lemma ins_sorted_In : forall x l u, In u (ins_sorted x l) <-> u = x \/ In u l.
 Proof.
-  induction l as [|y r IH]; intro u; cbn; [split; intros [H|H]; auto; contradiction|].
-  destruct (x <? y); cbn; [split; intros [H|H]; auto|].
-  rewrite IH. split; intros [H|H]; auto. destruct H; auto.
+  induction l as [|y r IH]; intro u; cbn.
+  - intuition (subst; auto).
+  - destruct (x <? y); cbn.
+    + intuition (subst; auto).
+    + rewrite IH. intuition (subst; auto).
 Qed.
 
 Lemma sins_In : forall x l u, In u (sins x l) <-> u = x \/ In u l.
